@@ -19,6 +19,17 @@ ScalarKinds ==
     i32      |-> [type |-> "integer", format |-> "int32", maximum |-> 10],
     num      |-> [type |-> "number", minimum |-> 3],
     f32      |-> [type |-> "number", format |-> "float", maximum |-> 5, exclusiveMaximum |-> TRUE],
+    \* asymmetric exclusivity per numeric format (each format takes its own branch of the validation templates)
+    i32_xlo  |-> [type |-> "integer", format |-> "int32", minimum |-> 4, maximum |-> 12, exclusiveMinimum |-> TRUE],
+    i32_xhi  |-> [type |-> "integer", format |-> "int32", minimum |-> 4, maximum |-> 12, exclusiveMaximum |-> TRUE],
+    i64_xhi  |-> [type |-> "integer", format |-> "int64", minimum |-> 4, maximum |-> 12, exclusiveMaximum |-> TRUE],
+    u32_xlo  |-> [type |-> "integer", format |-> "uint32", minimum |-> 4, maximum |-> 12, exclusiveMinimum |-> TRUE],
+    u32_xhi  |-> [type |-> "integer", format |-> "uint32", minimum |-> 4, maximum |-> 12, exclusiveMaximum |-> TRUE],
+    u64_xlo  |-> [type |-> "integer", format |-> "uint64", minimum |-> 4, maximum |-> 12, exclusiveMinimum |-> TRUE],
+    u64_xhi  |-> [type |-> "integer", format |-> "uint64", minimum |-> 4, maximum |-> 12, exclusiveMaximum |-> TRUE],
+    f32_xlo  |-> [type |-> "number", format |-> "float", minimum |-> 2, maximum |-> 6, exclusiveMinimum |-> TRUE],
+    f64_xlo  |-> [type |-> "number", format |-> "double", minimum |-> 2, maximum |-> 6, exclusiveMinimum |-> TRUE],
+    f64_xhi  |-> [type |-> "number", format |-> "double", minimum |-> 2, maximum |-> 6, exclusiveMaximum |-> TRUE],
     str      |-> [type |-> "string"],
     str_len  |-> [type |-> "string", minLength |-> 2, maxLength |-> 3],
     str_pat  |-> [type |-> "string", pattern |-> "P_a_prefix"],
@@ -77,6 +88,13 @@ ArrayDefaultParams ==
 
 Params == {p \in ScalarParams : ScalarOK(p)} \cup DefaultParams \cup AllowEmptyParams
           \cup {p \in ArrayParams : ArrayOK(p)} \cup ArrayCountParams \cup NestedParams \cup NestedPlainParams \cup ArrayDefaultParams
+
+\* file parameters (multipart upload): the value is the content of the file; minLength / maxLength bound its
+\* size.  They are part of the client/server universe (C04) and of the build matrix (C01); the raw-request
+\* universe of C03 (urlencoded fragments) does not apply to them.
+FileKinds == {[type |-> "file"], [type |-> "file", maxLength |-> 3], [type |-> "file", minLength |-> 2], [type |-> "file", minLength |-> 2, maxLength |-> 3]}
+FileParams == {Named(k, "formData", req) : k \in FileKinds, req \in BOOLEAN}
+ParamsC04 == Params \cup FileParams
 
 \* ---- raw fragments ----------------------------------------------------------------------
 Absent1 == [present |-> FALSE, vals |-> <<>>]
